@@ -471,7 +471,26 @@ def _replay_filter(inp, inverted, rng=None):
         # in the sense of floating-point tolerances (relative 1e-5 of 1e6 is 10)
         ([(1e6, 1e6), (1e6 + 100, 1e6), (1e6 + 100, 1e6 + 100), (1e6 + 8, 1e6 + 9)],
          [(1e6 + 0.5 * i, 1e6 + 0.37 * j) for i in range(0, 40) for j in range(0, 40)]),
+        # coordinates of very different magnitude (a time-like axis against a large one): points just
+        # inside / outside an edge must not be absorbed by any intermediate arithmetic
+        ([(0.0, 0.0), (4e-3, 0.0), (4e-3, 1e9), (0.0, 1e9)],
+         [(2e-3, 1e-8), (2e-3, -1e-8), (2e-3, -5.0), (2e-3, 5.0), (-1e-3, 10.0), (5e-3, 10.0), (2e-3, 1e9 + 1),
+          (2e-3, 1e9 - 1), (1e-3, 3e-7), (1e-3, -3e-7)]),
     ]
+    # events with an undefined coordinate lie in no polygon: an inverted filter keeps them
+    from dclab.polygon_filter import PolygonFilter as _PF
+    try:
+        pf = _PF(axes=("area_um", "deform"), points=[(0, 0), (4, 0), (4, 4), (0, 4)], inverted=inverted)
+        xs_ = np.array([1.0, float("nan"), 2.0, 9.0, float("nan"), 3.0])
+        ys_ = np.array([1.0, 1.0, float("nan"), 9.0, float("nan"), 3.5])
+        got_ = pf.filter(xs_, ys_)
+        want_ = np.array([True, False, False, False, False, True]) != inverted
+        if got_.shape != want_.shape or not np.array_equal(np.asarray(got_, dtype=bool), want_):
+            return {"failed": True, "detail": f"square (0,0)-(4,4), inverted={inverted}, points with NaN coordinates "
+                                              f"{list(zip(xs_.tolist(), ys_.tolist()))}: filter gives {np.asarray(got_).tolist()}, "
+                                              f"expected {want_.tolist()} (an undefined point is inside no polygon)"}
+    finally:
+        _PF.clear_all_filters()
     for trial in range(int(inp.get("polygons", 8)) + len(fixed)):
         nv = rng.randint(3, 7)
         verts = [(rng.randint(-4, 4) + rng.choice([0, 0.5]), rng.randint(-4, 4)) for _ in range(nv)]
